@@ -642,6 +642,54 @@ def journal_and_locks(r):
         roots.close()
 
 
+def several_stores_and_session_rewrite(r):
+    """(a) Two accounts' key stores open in one process (both parties of a conversation, a multi-account application): each has its OWN
+    identity and registration id - what the API hands out is what that store's database holds.  (b) deleteAllSessions followed by storing
+    the very record that was there before: the record is there again (the store does not skip a write because it remembers the bytes)."""
+    import sqlite3
+    from harness import e2ekit
+    from yowsup.common.tools import StorageTools
+    from yowsup.axolotl.store.sqlite.liteaxolotlstore import LiteAxolotlStore
+    roots = e2ekit.Roots()
+    try:
+        r.case(("several-stores",))
+        r.cov["traces_validated_against_impl"] += 1
+        seen = {}
+        for phone in ("4915770005501", "4915770005502", "4915770005503"):
+            m = e2ekit.make_profile(phone).axolotl_manager
+            api = (bytes(m.identity.getPublicKey().serialize()), m.registration_id)
+            c = sqlite3.connect(StorageTools.constructPath(phone, "axolotl.db"))
+            try:
+                row = c.execute("SELECT registration_id, public_key FROM identities WHERE recipient_id = -1").fetchone()
+            finally:
+                c.close()
+            ondisk = (bytes(row[1]), row[0]) if row else None
+            if ondisk is None or ondisk != api or api in seen.values():
+                r.violation("durable:stores-share-identity", "store of account %s opened as #%d in this process: the API hands out identity %s.. / registration id %s, its database holds %s; other stores' identities %s" % (
+                    phone, len(seen) + 1, api[0].hex()[:10], api[1], ("%s.. / %s" % (ondisk[0].hex()[:10], ondisk[1])) if ondisk else "nothing",
+                    [v[0].hex()[:10] for v in seen.values()]), {"phone": phone})
+                break
+            seen[phone] = api
+        # (b)
+        r.case(("session-rewrite-after-delete-all",))
+        h = Harness(tempfile.mkdtemp(prefix="verif_c13_rw_", dir=roots.root))
+        db = h.fresh_path()
+        st = h.open(db)
+        rec = h.value("sessions", "v2")
+        st.storeSession(RECIP["k1"], 1, rec)
+        st.loadSession(RECIP["k1"], 1)
+        st.deleteAllSessions(RECIP["k1"])
+        st.storeSession(RECIP["k1"], 1, h.value("sessions", "v2"))
+        st.identityKeyStore.dbConn.close()
+        st2 = h.open(db)
+        there = st2.containsSession(RECIP["k1"], 1)
+        st2.identityKeyStore.dbConn.close()
+        if not there:
+            r.violation("durable:storeSession:after-delete-all", "storeSession(X), deleteAllSessions, storeSession(X again): after reopening, the session is missing", {})
+    finally:
+        roots.close()
+
+
 def run():
     r = core.Run("C13", "model_checking")
     thorough = r.tier == "thorough"
@@ -711,6 +759,7 @@ def run():
         profiles_of_one_number(r)
         after_refused_bundle(r)
         journal_and_locks(r)
+        several_stores_and_session_rewrite(r)
     finally:
         shutil.rmtree(work, ignore_errors=True)
     r.assumptions += core.ENV_ASSUMPTIONS[:1] + [
